@@ -236,6 +236,18 @@ def build(spec):
         return np.eye(shp[0], shp[1]) * float(spec["c"]) if spec.get("eye") else np.full(shp, float(spec["c"]))
     elif g == "qscalar":
         return np.quaternion(*[float(v) for v in spec["q"]])
+    elif g == "cval":
+        return complex(float(spec["re"]), float(spec["im"]))
+    elif g == "csr":
+        # a scipy CSR matrix (one component of a sparse quaternion matrix as the caller holds it);
+        # "explicit_zeros": every entry stored, zeros included (a legal, non-canonical layout)
+        from scipy import sparse
+        M = np.asarray(build(spec["of"]), dtype=float)
+        if spec.get("explicit_zeros"):
+            m_, n_ = M.shape
+            return sparse.csr_matrix((M.ravel().copy(), np.tile(np.arange(n_), m_), np.arange(0, m_ * n_ + 1, n_)),
+                                     shape=(m_, n_))
+        return sparse.csr_matrix(M)
     elif g == "scale_val":
         return float(spec["v"])
     else:
